@@ -4,6 +4,7 @@ import Mathlib.Analysis.Real.Sqrt
 import Mathlib.Tactic.Ring
 import Mathlib.Tactic.FieldSimp
 import Mathlib.Tactic.Linarith
+import Mathlib.Tactic.NormNum
 /-!
 # C13 — normalisation removes exactly the variation it is meant to remove
 
@@ -202,6 +203,427 @@ theorem distVals_affine (h : BInv isZero F P N D b) (α : ℝ) (β : Nat → ℝ
       simpa using this
     rw [hs, Real.sqrt_mul (mul_self_nonneg α), Real.sqrt_mul_self_eq_abs]
 
+theorem mapM_some_getD (f : Nat → Option ℝ) : ∀ (xs : List Nat) (out : List ℝ), xs.mapM f = some out →
+    out.length = xs.length ∧ ∀ i (hi : i < xs.length), f xs[i] = some (out.getD i 0)
+  | [], out, h => by simp at h; subst h; exact ⟨rfl, fun i hi => absurd hi (by simp)⟩
+  | x :: xs, out, h => by
+    simp only [List.mapM_cons, Option.bind_eq_bind, Option.bind_eq_some_iff, Option.pure_def, Option.some.injEq] at h
+    obtain ⟨y, hy, rest, hrest, rfl⟩ := h
+    obtain ⟨h1, h2⟩ := mapM_some_getD f xs rest hrest
+    refine ⟨by simp [h1], ?_⟩
+    intro i hi
+    cases i with
+    | zero => simpa using hy
+    | succ j => simpa using h2 j (by simpa using hi)
+
+theorem mapM_range_some (f : Nat → Option ℝ) (g : Nat → ℝ) (n : Nat) (h : ∀ d < n, f d = some (g d)) : (List.range n).mapM f = some ((List.range n).map g) := by
+  have gen : ∀ (xs : List Nat), (∀ d ∈ xs, f d = some (g d)) → xs.mapM f = some (xs.map g) := by
+    intro xs; induction xs with
+    | nil => intro _; rfl
+    | cons x xs ih =>
+      intro hx
+      simp only [List.mapM_cons, hx x (by simp), ih fun d hd => hx d (List.mem_cons_of_mem _ hd), Option.bind_eq_bind, Option.bind_some, Option.pure_def, List.map_cons]
+  exact gen _ fun d hd => h d (List.mem_range.mp hd)
+
+theorem distVals_nonneg (b : PBody ℝ) (p1 p2 D' : Nat) : ∀ x ∈ distVals RS b p1 p2 D', 0 ≤ x := by
+  intro x hx
+  unfold distVals at hx
+  obtain ⟨i, _, hi⟩ := List.mem_filterMap.mp hx
+  simp only [] at hi
+  split at hi
+  · cases hi
+  · cases hi; exact Real.sqrt_nonneg _
+
+theorem mean_affine (α β : ℝ) (l : List ℝ) (m : ℝ) (h : meanOpt RS l = some m) : meanOpt RS (l.map fun v => α * v + β) = some (α * m + β) := by
+  obtain ⟨hl, rfl⟩ := meanOpt_some h
+  have hn := length_ne_zero hl
+  rw [meanOpt_eq _ (by simpa using hl), sum_map_affine, List.length_map]
+  congr 1
+  field_simp
+
+/-- the normalised body is the coordinate-wise affine image `x ↦ (x − c_d) · s` of the input -/
+theorem normalizeBody_eq (p1 p2 : Nat) (sf : ℝ) (b b' : PBody ℝ) (center : List ℝ) (md : ℝ) (hres : normalizeBody RS isZero p1 p2 sf b = some (b', center, md)) :
+    b' = mapCoords isZero (fun d x => (sf / md) * x + (-(center.getD d 0) * (sf / md))) b.fps b ∧
+    (List.range (numDimsBody b)).mapM (fun d => meanOpt RS (midVals RS b p1 p2 d)) = some center ∧ meanOpt RS (distVals RS b p1 p2 (numDimsBody b)) = some md := by
+  unfold normalizeBody at hres
+  simp only [Option.bind_eq_bind, Option.bind_eq_some_iff, Option.some.injEq, Prod.mk.injEq] at hres
+  obtain ⟨c, hc, m, hm, rfl, rfl, rfl⟩ := hres
+  refine ⟨?_, hc, hm⟩
+  unfold mapCoords normalizePoint
+  congr 4
+  funext pt
+  congr 1
+  funext d x
+  simp only [RS_mul, RS_sub, RS_div, RS_zero]
+  ring
+
+/-- **Postcondition of `normalize`**: confidences and missing pattern unchanged, mean midpoint of the reference points at the origin, mean reference distance
+    equal to the requested scale. -/
+theorem normalize_post (h : BInv isZero F P N D b) (p1 p2 : Nat) (sf : ℝ) (hsf : 0 < sf) (b' : PBody ℝ) (center : List ℝ) (md : ℝ)
+    (hres : normalizeBody RS isZero p1 p2 sf b = some (b', center, md)) (hmd : md ≠ 0) :
+    b'.conf = b.conf ∧ b'.missing = b.missing ∧
+    (∀ d < numDimsBody b, meanOpt RS (midVals RS b' p1 p2 d) = some 0) ∧
+    meanOpt RS (distVals RS b' p1 p2 (numDimsBody b)) = some sf := by
+  obtain ⟨rfl, hc, hm⟩ := normalizeBody_eq p1 p2 sf b b' center md hres
+  have hmd0 : 0 < md := by
+    obtain ⟨hl, rfl⟩ := meanOpt_some hm
+    have : 0 ≤ (distVals RS b p1 p2 (numDimsBody b)).sum / ((distVals RS b p1 p2 (numDimsBody b)).length : ℝ) :=
+      div_nonneg (List.sum_nonneg (distVals_nonneg b p1 p2 _)) (by positivity)
+    exact lt_of_le_of_ne this (Ne.symm hmd)
+  have hs : 0 < sf / md := div_pos hsf hmd0
+  refine ⟨by rw [mapCoords_eq h], by rw [mapCoords_eq h], ?_, ?_⟩
+  · intro d hd
+    obtain ⟨hlen, hget⟩ := mapM_some_getD _ _ _ hc
+    have hcd := hget d (by simpa using hd)
+    simp only [List.getElem_range] at hcd
+    rw [midVals_affine h, mean_affine _ _ _ _ hcd]
+    congr 1
+    ring
+  · rw [distVals_affine h]
+    have := mean_affine |sf / md| 0 _ _ hm
+    simp only [add_zero] at this
+    rw [this, abs_of_pos hs]
+    congr 1
+    field_simp
+
+theorem mapIdx_congr_lt {α β : Type} (f g : Nat → α → β) (l : List α) (h : ∀ i (hi : i < l.length), f i l[i] = g i l[i]) : l.mapIdx f = l.mapIdx g := by
+  apply List.ext_getElem
+  · simp
+  · intro i h1 h2
+    simp only [List.getElem_mapIdx]
+    exact h i (by simpa using h1)
+
+theorem mapCoords_inv (h : BInv isZero F P N D b) (g : Nat → ℝ → ℝ) (fps' : ℝ) : BInv isZero F P N D (mapCoords isZero g fps' b) :=
+  (mapPoints_inv .numpy h (fun pt => pt.mapIdx g) (fun pt => by simp) fps').1
+
+/-- **Similarity invariance of `normalize`**: translating the input by `t` and scaling it uniformly by `a > 0` gives exactly the same normalised body. -/
+theorem normalize_similarity_invariant (h : BInv isZero F P N D b) (hF : 0 < F) (hP : 0 < P) (hN : 0 < N) (p1 p2 : Nat) (sf : ℝ) (a : ℝ) (ha : 0 < a) (t : Nat → ℝ)
+    (b' : PBody ℝ) (center : List ℝ) (md : ℝ) (hres : normalizeBody RS isZero p1 p2 sf b = some (b', center, md)) (hmd : md ≠ 0) :
+    ∃ center₂ md₂, normalizeBody RS isZero p1 p2 sf (mapCoords isZero (fun d x => a * x + t d) b.fps b) = some (b', center₂, md₂) := by
+  obtain ⟨rfl, hc, hm⟩ := normalizeBody_eq p1 p2 sf b b' center md hres
+  have h2 := mapCoords_inv h (fun d x => a * x + t d) b.fps
+  have hD : numDimsBody b = D := numDims_of_rect h.data hF hP hN
+  have hD2 : numDimsBody (mapCoords isZero (fun d x => a * x + t d) b.fps b) = D := numDims_of_rect h2.data hF hP hN
+  obtain ⟨hlen, hget⟩ := mapM_some_getD _ _ _ hc
+  simp only [List.length_range] at hlen
+  refine ⟨(List.range D).map fun d => a * center.getD d 0 + t d, a * md, ?_⟩
+  unfold normalizeBody
+  rw [hD2]
+  have hc2 : (List.range D).mapM (fun d => meanOpt RS (midVals RS (mapCoords isZero (fun d x => a * x + t d) b.fps b) p1 p2 d)) =
+      some ((List.range D).map fun d => a * center.getD d 0 + t d) := by
+    apply mapM_range_some
+    intro d hd
+    have hcd := hget d (by simpa [hD] using hd)
+    simp only [List.getElem_range] at hcd
+    rw [midVals_affine h, mean_affine _ _ _ _ hcd]
+  have hm2 : meanOpt RS (distVals RS (mapCoords isZero (fun d x => a * x + t d) b.fps b) p1 p2 D) = some (a * md) := by
+    rw [distVals_affine h]
+    have := mean_affine |a| 0 _ _ (hD ▸ hm)
+    simp only [add_zero] at this
+    rw [this, abs_of_pos ha]
+  simp only [hc2, hm2, Option.bind_eq_bind, Option.bind_some, Option.some.injEq, Prod.mk.injEq, and_true]
+  rw [mapCoords_eq h (fun d x => a * x + t d)]
+  show mkBody Backend.numpy isZero b.fps
+      ((b.data.map (List.map (List.map fun pt => List.mapIdx (fun d x => a * x + t d) pt))).map
+        (List.map (List.map (normalizePoint RS (List.map (fun d => a * center.getD d 0 + t d) (List.range D)) (RS.div sf (a * md))))))
+      b.conf (some b.missing) =
+    mkBody Backend.numpy isZero b.fps (b.data.map (List.map (List.map fun pt => List.mapIdx (fun d x => sf / md * x + -center.getD d 0 * (sf / md)) pt))) b.conf (some b.missing)
+  -- both sides are the constructor applied to point-wise images of the same data
+  have hdata : ((b.data.map (List.map (List.map fun pt => List.mapIdx (fun d x => a * x + t d) pt))).map
+        (List.map (List.map (normalizePoint RS (List.map (fun d => a * center.getD d 0 + t d) (List.range D)) (RS.div sf (a * md)))))) =
+      b.data.map (List.map (List.map fun pt => List.mapIdx (fun d x => sf / md * x + -center.getD d 0 * (sf / md)) pt)) := by
+    rw [List.map_map]
+    apply List.map_congr_left
+    intro fr hfr
+    simp only [Function.comp, List.map_map]
+    apply List.map_congr_left
+    intro pe hpe
+    simp only [Function.comp, List.map_map]
+    apply List.map_congr_left
+    intro pt hpt
+    have hpl : pt.length = D := ((h.data.2 fr hfr).2 pe hpe).2 pt hpt
+    simp only [Function.comp, normalizePoint, List.mapIdx_mapIdx]
+    apply mapIdx_congr_lt
+    intro i hi
+    have hi' : i < D := by rw [← hpl]; exact hi
+    have hg : ((List.range D).map fun d => a * center.getD d 0 + t d).getD i RS.zero = a * center.getD i 0 + t i := by
+      simp [List.getD_eq_getElem?_getD, hi']
+    simp only [hg, RS_mul, RS_sub, RS_div, Function.comp]
+    have ha' : a ≠ 0 := ne_of_gt ha
+    field_simp
+    ring
+  rw [hdata]
+
 end
+
+/-! ### the 3-D plane / line normaliser, one frame and person -/
+
+section threeD
+
+theorem getD_map_lt {α β : Type} [Inhabited α] [Inhabited β] (f : α → β) (l : List α) (i : Nat) (h : i < l.length) : (l.map f).getD i default = f (l.getD i default) := by
+  simp [List.getD_eq_getElem?_getD, List.getElem?_eq_getElem h]
+
+@[simp] theorem length_stage1 (info : Norm3DInfo) (pts : List (V3S ℝ)) : (stage1 RS info pts).length = pts.length := by simp [stage1]
+@[simp] theorem length_stage2 (info : Norm3DInfo) (l : List (V3S ℝ)) : (stage2 RS info l).length = l.length := by simp [stage2]
+@[simp] theorem length_stage3 (info : Norm3DInfo) (size : ℝ) (l : List (V3S ℝ)) : (stage3 RS info size l).length = l.length := by simp [stage3]
+
+/-- all five reference indexes denote points of the pose -/
+def InRange (info : Norm3DInfo) (n : Nat) : Prop :=
+  info.plane.1 < n ∧ info.plane.2.1 < n ∧ info.plane.2.2 < n ∧ info.line.1 < n ∧ info.line.2 < n
+
+/-- **the first line point goes to the origin** -/
+theorem line_p1_at_origin (info : Norm3DInfo) (size : ℝ) (pts : List (V3S ℝ)) (h : info.line.1 < pts.length) :
+    (normalize3DPerson RS info size pts).getD info.line.1 default = (0, 0, 0) := by
+  unfold normalize3DPerson stage3
+  simp only []
+  rw [getD_map_lt _ _ _ (by simpa using h)]
+  simp [v3sub]
+
+/-- after the change of basis the three plane points have z = 0 (the normal is orthogonal to both edge vectors) -/
+theorem stage1_plane_z (info : Norm3DInfo) (pts : List (V3S ℝ)) (hr : InRange info pts.length) (k : Nat)
+    (hk : k = info.plane.1 ∨ k = info.plane.2.1 ∨ k = info.plane.2.2) : ((stage1 RS info pts).getD k default).2.2 = 0 := by
+  have hkl : k < pts.length := by rcases hk with rfl | rfl | rfl; exact hr.1; exact hr.2.1; exact hr.2.2.1
+  unfold stage1
+  simp only []
+  rw [getD_map_lt _ _ _ hkl]
+  rcases hk with rfl | rfl | rfl <;> simp only [v3dot, v3sub, v3cross, v3norm, RS_add, RS_sub, RS_mul, RS_div] <;> ring
+
+/-- the in-plane rotation and the scaling keep z = 0; the final translation does when the first line point is itself a plane point -/
+theorem plane_at_z0_partial (info : Norm3DInfo) (size : ℝ) (pts : List (V3S ℝ)) (hr : InRange info pts.length)
+    (hin : info.line.1 = info.plane.1 ∨ info.line.1 = info.plane.2.1 ∨ info.line.1 = info.plane.2.2) (k : Nat)
+    (hk : k = info.plane.1 ∨ k = info.plane.2.1 ∨ k = info.plane.2.2) : ((normalize3DPerson RS info size pts).getD k default).2.2 = 0 := by
+  have hkl : k < pts.length := by rcases hk with rfl | rfl | rfl; exact hr.1; exact hr.2.1; exact hr.2.2.1
+  have hz : ∀ j, (j = info.plane.1 ∨ j = info.plane.2.1 ∨ j = info.plane.2.2) → j < pts.length → ((stage2 RS info (stage1 RS info pts)).getD j default).2.2 = 0 := by
+    intro j hj hjl
+    unfold stage2
+    simp only []
+    rw [getD_map_lt _ _ _ (by simpa using hjl)]
+    exact stage1_plane_z info pts hr j hj
+  unfold normalize3DPerson stage3
+  simp only []
+  rw [getD_map_lt _ _ _ (by simpa using hkl), getD_map_lt _ _ _ (by simpa using hkl), getD_map_lt _ _ _ (by simpa using hr.2.2.2.1)]
+  simp only [v3sub, v3scale, RS_sub, RS_mul]
+  rw [hz k hk hkl, hz info.line.1 hin hr.2.2.2.1]
+  ring
+
+/-- **the line lands on the negative Y half-plane with the requested 3-D length**: for a line whose projection on the plane is not a point (`r ≠ 0`) and `size > 0`,
+    the second line point is `(0, y, z)` with `y < 0`, and its distance from the origin (where the first line point is) is `size`. -/
+theorem line_on_negative_y (info : Norm3DInfo) (size : ℝ) (hsize : 0 < size) (pts : List (V3S ℝ)) (hr : InRange info pts.length)
+    (hproj : let v := v3sub RS ((stage1 RS info pts).getD info.line.2 default) ((stage1 RS info pts).getD info.line.1 default); v.1 * v.1 + v.2.1 * v.2.1 ≠ 0) :
+    let q := (normalize3DPerson RS info size pts).getD info.line.2 default
+    q.1 = 0 ∧ q.2.1 < 0 ∧ v3norm RS q = size := by
+  intro q
+  have h1 : info.line.1 < (stage1 RS info pts).length := by simpa using hr.2.2.2.1
+  have h2 : info.line.2 < (stage1 RS info pts).length := by simpa using hr.2.2.2.2
+  generalize hl : stage1 RS info pts = l at *
+  -- the rotated line vector
+  rcases hA : l.getD info.line.1 default with ⟨ax, ay, az⟩
+  rcases hB : l.getD info.line.2 default with ⟨bx, by', bz⟩
+  simp only [hA, hB, v3sub, RS_sub] at hproj
+  set vx := bx - ax with hvx
+  set vy := by' - ay with hvy
+  set vz := bz - az with hvz
+  have hr2pos : 0 < vx * vx + vy * vy := lt_of_le_of_ne (add_nonneg (mul_self_nonneg _) (mul_self_nonneg _)) (Ne.symm hproj)
+  set r := Real.sqrt (vx * vx + vy * vy) with hrdef
+  have hrpos : 0 < r := Real.sqrt_pos.mpr hr2pos
+  have hrr : r * r = vx * vx + vy * vy := Real.mul_self_sqrt (le_of_lt hr2pos)
+  have hm1 : (stage2 RS info l).getD info.line.1 default = ((-vy / r) * ax + (vx / r) * ay, -(vx / r) * ax + (-vy / r) * ay, az) := by
+    unfold stage2; simp only []
+    rw [getD_map_lt _ _ _ h1, hA, hB]
+    simp only [v3sub, RS_sub, RS_add, RS_mul, RS_div, RS_neg, RS_sqrt]
+    rfl
+  have hm2 : (stage2 RS info l).getD info.line.2 default = ((-vy / r) * bx + (vx / r) * by', -(vx / r) * bx + (-vy / r) * by', bz) := by
+    unfold stage2; simp only []
+    rw [getD_map_lt _ _ _ h2, hA, hB]
+    simp only [v3sub, RS_sub, RS_add, RS_mul, RS_div, RS_neg, RS_sqrt]
+    rfl
+  have hdx : ((-vy / r) * bx + (vx / r) * by') - ((-vy / r) * ax + (vx / r) * ay) = 0 := by
+    have : ((-vy / r) * bx + (vx / r) * by') - ((-vy / r) * ax + (vx / r) * ay) = (-vy * vx + vx * vy) / r := by rw [hvx, hvy]; field_simp; ring
+    rw [this]; ring_nf
+  have hdy : (-(vx / r) * bx + (-vy / r) * by') - (-(vx / r) * ax + (-vy / r) * ay) = -r := by
+    have : (-(vx / r) * bx + (-vy / r) * by') - (-(vx / r) * ax + (-vy / r) * ay) = -(vx * vx + vy * vy) / r := by rw [hvx, hvy]; field_simp; ring
+    rw [this, ← hrr]; field_simp
+  -- scaling and translation
+  set cur := Real.sqrt ((0 : ℝ) * 0 + (-r) * (-r) + vz * vz) with hcur
+  have hcurpos : 0 < cur := Real.sqrt_pos.mpr (by nlinarith [mul_pos hrpos hrpos, mul_self_nonneg vz])
+  have hcc : cur * cur = r * r + vz * vz := by rw [hcur, Real.mul_self_sqrt (by nlinarith [mul_self_nonneg r, mul_self_nonneg vz])]; ring
+  have hq : q = (0, (size / cur) * (-r), (size / cur) * vz) := by
+    show (normalize3DPerson RS info size pts).getD info.line.2 default = _
+    unfold normalize3DPerson stage3
+    simp only [hl]
+    rw [getD_map_lt _ _ _ (by simpa using h2), getD_map_lt _ _ _ (by simpa using h2), getD_map_lt _ _ _ (by simpa using h1), hm1, hm2]
+    simp only [v3sub, v3scale, v3norm, v3dot, RS_sub, RS_mul, RS_div, RS_add, RS_sqrt, hdx, hdy, ← hvz, ← hcur]
+    refine Prod.ext ?_ (Prod.ext ?_ ?_) <;> simp only []
+    · have e : (-vy / r * bx + vx / r * by') * (size / cur) - (-vy / r * ax + vx / r * ay) * (size / cur) =
+          ((-vy / r * bx + vx / r * by') - (-vy / r * ax + vx / r * ay)) * (size / cur) := by ring
+      rw [e, hdx]; ring
+    · have := hdy
+      have e : (-(vx / r) * bx + -vy / r * by') * (size / cur) - (-(vx / r) * ax + -vy / r * ay) * (size / cur) =
+          ((-(vx / r) * bx + -vy / r * by') - (-(vx / r) * ax + -vy / r * ay)) * (size / cur) := by ring
+      rw [e, this]; ring
+    · ring
+  have hs : 0 < size / cur := div_pos hsize hcurpos
+  refine ⟨by rw [hq], by rw [hq]; exact mul_neg_of_pos_of_neg hs (by linarith), ?_⟩
+  rw [hq]
+  simp only [v3norm, v3dot, RS_add, RS_mul, RS_sqrt]
+  have : (0 : ℝ) * 0 + size / cur * -r * (size / cur * -r) + size / cur * vz * (size / cur * vz) = size * size := by
+    have hc0 : cur ≠ 0 := ne_of_gt hcurpos
+    field_simp
+    nlinarith [hcc]
+  rw [this, Real.sqrt_mul_self (le_of_lt hsize)]
+
+/-! #### invariance under translation and uniform scaling of the input -/
+
+def trans3 (t : V3S ℝ) (p : V3S ℝ) : V3S ℝ := (p.1 + t.1, p.2.1 + t.2.1, p.2.2 + t.2.2)
+def scale3 (a : ℝ) (p : V3S ℝ) : V3S ℝ := (a * p.1, a * p.2.1, a * p.2.2)
+
+theorem v3sub_trans (t a b : V3S ℝ) : v3sub RS (trans3 t a) (trans3 t b) = v3sub RS a b := by
+  simp only [v3sub, trans3, RS_sub]
+  refine Prod.ext ?_ (Prod.ext ?_ ?_) <;> simp only [] <;> ring
+
+/-- **translation invariance**: the change of basis only looks at differences from the first plane point -/
+theorem normalize3D_translation_invariant (info : Norm3DInfo) (size : ℝ) (pts : List (V3S ℝ)) (hr : InRange info pts.length) (t : V3S ℝ) :
+    normalize3DPerson RS info size (pts.map (trans3 t)) = normalize3DPerson RS info size pts := by
+  unfold normalize3DPerson
+  congr 2
+  unfold stage1
+  simp only [getD_map_lt (trans3 t) pts _ hr.1, getD_map_lt (trans3 t) pts _ hr.2.1, getD_map_lt (trans3 t) pts _ hr.2.2.1, List.map_map, v3sub_trans]
+  apply List.map_congr_left
+  intro p _
+  simp only [Function.comp, v3sub_trans]
+
+theorem sqrt_scale_sq (a x : ℝ) (ha : 0 ≤ a) : Real.sqrt (a * a * x) = a * Real.sqrt x := by
+  rw [Real.sqrt_mul (mul_self_nonneg a), Real.sqrt_mul_self ha]
+
+theorem stage1_scale (info : Norm3DInfo) (pts : List (V3S ℝ)) (hr : InRange info pts.length) (a : ℝ) (ha : 0 < a) :
+    stage1 RS info (pts.map (scale3 a)) = (stage1 RS info pts).map (scale3 a) := by
+  unfold stage1
+  simp only [getD_map_lt (scale3 a) pts _ hr.1, getD_map_lt (scale3 a) pts _ hr.2.1, getD_map_lt (scale3 a) pts _ hr.2.2.1, List.map_map]
+  apply List.map_congr_left
+  intro p _
+  rcases p with ⟨px, py, pz⟩
+  rcases h0 : pts.getD info.plane.1 default with ⟨ax, ay, az⟩
+  rcases h1 : pts.getD info.plane.2.1 default with ⟨bx, by', bz⟩
+  rcases h2 : pts.getD info.plane.2.2 default with ⟨cx, cy, cz⟩
+  simp only [Function.comp, scale3, v3sub, v3dot, v3cross, v3norm, RS_sub, RS_mul, RS_add, RS_div, RS_sqrt, RS_zero, RS_ofNat]
+  -- the normal scales by a², its length by a², so the unit normal (hence the basis) is unchanged
+  set nx := (by' - ay) * (cz - az) - (bz - az) * (cy - ay) with hnx
+  set ny := (bz - az) * (cx - ax) - (bx - ax) * (cz - az) with hny
+  set nz := (bx - ax) * (cy - ay) - (by' - ay) * (cx - ax) with hnz
+  have e1 : (a * by' - a * ay) * (a * cz - a * az) - (a * bz - a * az) * (a * cy - a * ay) = a * a * nx := by rw [hnx]; ring
+  have e2 : (a * bz - a * az) * (a * cx - a * ax) - (a * bx - a * ax) * (a * cz - a * az) = a * a * ny := by rw [hny]; ring
+  have e3 : (a * bx - a * ax) * (a * cy - a * ay) - (a * by' - a * ay) * (a * cx - a * ax) = a * a * nz := by rw [hnz]; ring
+  rw [e1, e2, e3]
+  have hlen : Real.sqrt (a * a * nx * (a * a * nx) + a * a * ny * (a * a * ny) + a * a * nz * (a * a * nz)) = a * a * Real.sqrt (nx * nx + ny * ny + nz * nz) := by
+    have : a * a * nx * (a * a * nx) + a * a * ny * (a * a * ny) + a * a * nz * (a * a * nz) = (a * a) * (a * a) * (nx * nx + ny * ny + nz * nz) := by ring
+    rw [this, sqrt_scale_sq (a * a) _ (mul_self_nonneg a)]
+  rw [hlen]
+  set len := Real.sqrt (nx * nx + ny * ny + nz * nz)
+  have ha2 : a * a ≠ 0 := ne_of_gt (mul_pos ha ha)
+  have hz : ∀ w : ℝ, a * a * w / (a * a * len) = w / len := fun w => mul_div_mul_left w len ha2
+  simp only [hz, Nat.cast_one]
+  refine Prod.ext ?_ (Prod.ext ?_ ?_) <;> simp only [] <;> ring
+
+theorem stage2_scale (info : Norm3DInfo) (l : List (V3S ℝ)) (h1 : info.line.1 < l.length) (h2 : info.line.2 < l.length) (a : ℝ) (ha : 0 < a) :
+    stage2 RS info (l.map (scale3 a)) = (stage2 RS info l).map (scale3 a) := by
+  unfold stage2
+  simp only [getD_map_lt (scale3 a) l _ h1, getD_map_lt (scale3 a) l _ h2, List.map_map]
+  apply List.map_congr_left
+  intro p _
+  rcases p with ⟨px, py, pz⟩
+  rcases hA : l.getD info.line.1 default with ⟨ax, ay, az⟩
+  rcases hB : l.getD info.line.2 default with ⟨bx, by', bz⟩
+  simp only [Function.comp, scale3, v3sub, RS_sub, RS_mul, RS_add, RS_div, RS_sqrt, RS_neg]
+  have hr : Real.sqrt ((a * bx - a * ax) * (a * bx - a * ax) + (a * by' - a * ay) * (a * by' - a * ay)) = a * Real.sqrt ((bx - ax) * (bx - ax) + (by' - ay) * (by' - ay)) := by
+    have : (a * bx - a * ax) * (a * bx - a * ax) + (a * by' - a * ay) * (a * by' - a * ay) = a * a * ((bx - ax) * (bx - ax) + (by' - ay) * (by' - ay)) := by ring
+    rw [this, sqrt_scale_sq a _ (le_of_lt ha)]
+  rw [hr]
+  set r := Real.sqrt ((bx - ax) * (bx - ax) + (by' - ay) * (by' - ay))
+  have ha0 : a ≠ 0 := ne_of_gt ha
+  have hc : -(a * by' - a * ay) / (a * r) = -(by' - ay) / r := by
+    rw [show -(a * by' - a * ay) = a * -(by' - ay) by ring]; exact mul_div_mul_left _ r ha0
+  have hs : (a * bx - a * ax) / (a * r) = (bx - ax) / r := by
+    rw [show (a * bx - a * ax) = a * (bx - ax) by ring]; exact mul_div_mul_left _ r ha0
+  rw [hc, hs]
+  refine Prod.ext ?_ (Prod.ext ?_ ?_) <;> simp only [] <;> ring
+
+theorem stage3_scale (info : Norm3DInfo) (size : ℝ) (l : List (V3S ℝ)) (h1 : info.line.1 < l.length) (h2 : info.line.2 < l.length) (a : ℝ) (ha : 0 < a) :
+    stage3 RS info size (l.map (scale3 a)) = stage3 RS info size l := by
+  unfold stage3
+  simp only [getD_map_lt (scale3 a) l _ h1, getD_map_lt (scale3 a) l _ h2, List.map_map]
+  rcases hA : l.getD info.line.1 default with ⟨ax, ay, az⟩
+  rcases hB : l.getD info.line.2 default with ⟨bx, by', bz⟩
+  have hcur : v3norm RS (v3sub RS (scale3 a (bx, by', bz)) (scale3 a (ax, ay, az))) = a * v3norm RS (v3sub RS (bx, by', bz) (ax, ay, az)) := by
+    simp only [scale3, v3sub, v3norm, v3dot, RS_sub, RS_mul, RS_add, RS_sqrt]
+    have : (a * bx - a * ax) * (a * bx - a * ax) + (a * by' - a * ay) * (a * by' - a * ay) + (a * bz - a * az) * (a * bz - a * az) =
+        a * a * ((bx - ax) * (bx - ax) + (by' - ay) * (by' - ay) + (bz - az) * (bz - az)) := by ring
+    rw [this, sqrt_scale_sq a _ (le_of_lt ha)]
+  rw [hcur]
+  set cur := v3norm RS (v3sub RS (bx, by', bz) (ax, ay, az))
+  have ha0 : a ≠ 0 := ne_of_gt ha
+  have hpt : ∀ p : V3S ℝ, v3scale RS (RS.div size (a * cur)) (scale3 a p) = v3scale RS (RS.div size cur) p := by
+    intro ⟨px, py, pz⟩
+    simp only [v3scale, scale3, RS_mul, RS_div]
+    have e : ∀ w : ℝ, a * w * (size / (a * cur)) = w * (size / cur) := by
+      intro w
+      rw [show a * w * (size / (a * cur)) = w * (a * size / (a * cur)) by ring, mul_div_mul_left _ cur ha0]
+    simp only [e]
+  have hmap : (l.map ((v3scale RS (RS.div size (a * cur))) ∘ scale3 a)) = l.map (v3scale RS (RS.div size cur)) := by
+    apply List.map_congr_left; intro p _; exact hpt p
+  simp only [hmap]
+  apply List.map_congr_left
+  intro p _
+  simp only [Function.comp, hpt]
+
+/-- **scale invariance**: multiplying every coordinate by `a > 0` does not change the output -/
+theorem normalize3D_scale_invariant (info : Norm3DInfo) (size : ℝ) (pts : List (V3S ℝ)) (hr : InRange info pts.length) (a : ℝ) (ha : 0 < a) :
+    normalize3DPerson RS info size (pts.map (scale3 a)) = normalize3DPerson RS info size pts := by
+  unfold normalize3DPerson
+  rw [stage1_scale info pts hr a ha, stage2_scale info _ (by simpa using hr.2.2.2.1) (by simpa using hr.2.2.2.2) a ha,
+    stage3_scale info size _ (by simpa using hr.2.2.2.1) (by simpa using hr.2.2.2.2) a ha]
+
+end threeD
+
+/-! ### rotation: the full-strength statement is FALSE of the model (and of the implementation: known finding K2) -/
+
+section rotation
+
+theorem sqrt25 : Real.sqrt 25 = 5 := by rw [show (25 : ℝ) = 5 * 5 by norm_num]; exact Real.sqrt_mul_self (by norm_num)
+theorem sqrt9 : Real.sqrt 9 = 3 := by rw [show (9 : ℝ) = 3 * 3 by norm_num]; exact Real.sqrt_mul_self (by norm_num)
+
+def k2pts : List (V3S ℝ) := [(0, 0, 0), (3, 0, 4), (0, 1, 0), (1, 1, 1)]
+def k2info : Norm3DInfo := ⟨(0, 1, 2), (0, 1)⟩
+/-- rotation by 90° about the Z axis -/
+def rotZ90 (p : V3S ℝ) : V3S ℝ := (-p.2.1, p.1, p.2.2)
+
+theorem k2_original : ((normalize3DPerson RS k2info 1 k2pts).getD 3 default).2.2 = -1 / 15 := by
+  simp only [normalize3DPerson, stage3, stage2, stage1, k2pts, k2info, List.map_cons, List.map_nil, List.getD_cons_zero, List.getD_cons_succ,
+    v3sub, v3dot, v3cross, v3norm, v3scale, RS_sub, RS_mul, RS_add, RS_div, RS_sqrt, RS_neg, RS_zero, RS_ofNat]
+  norm_num [sqrt25, sqrt9]
+
+theorem k2_rotated : ((normalize3DPerson RS k2info 1 (k2pts.map rotZ90)).getD 3 default).2.2 = -1 / 25 := by
+  simp only [normalize3DPerson, stage3, stage2, stage1, k2pts, k2info, rotZ90, List.map_cons, List.map_nil, List.getD_cons_zero, List.getD_cons_succ,
+    v3sub, v3dot, v3cross, v3norm, v3scale, RS_sub, RS_mul, RS_add, RS_div, RS_sqrt, RS_neg, RS_zero, RS_ofNat]
+  norm_num [sqrt25, sqrt9]
+
+/-- **Not rotation-invariant**: a non-degenerate pose (plane (0,0,0), (3,0,4), (0,1,0); line = its first edge) whose normalisation changes when the input is rotated
+    by 90° about Z — the fourth point's z is −1/15 before and −1/25 after. The change of basis uses `y = x₀ × z`, `x = z × y`, unit vectors only when the normal is
+    orthogonal to the X axis. -/
+theorem not_rotation_invariant : ∃ (info : Norm3DInfo) (size : ℝ) (pts : List (V3S ℝ)) (R : V3S ℝ → V3S ℝ),
+    InRange info pts.length ∧ (∀ p q, v3dot RS (R p) (R q) = v3dot RS p q) ∧
+    normalize3DPerson RS info size (pts.map R) ≠ normalize3DPerson RS info size pts := by
+  refine ⟨k2info, 1, k2pts, rotZ90, by simp [InRange, k2info, k2pts], ?_, ?_⟩
+  · intro p q; simp only [v3dot, rotZ90, RS_add, RS_mul]; ring
+  · intro h
+    have h1 := k2_original
+    have h2 := k2_rotated
+    rw [h, h1] at h2
+    norm_num at h2
+
+end rotation
+
+/-! ### non-vacuity of the hypotheses -/
+
+example : InRange k2info k2pts.length := by simp [InRange, k2info, k2pts]
 
 end PoseVerif.Props.C13
